@@ -555,11 +555,19 @@ type Artifact struct {
 
 func ParseArtifact(data []byte) *Artifact {
 	a := &Artifact{}
-	if bytes.HasPrefix(data, []byte("#HASH:")) {
-		if nl := bytes.IndexByte(data, '\n'); nl >= 0 {
-			a.HasHashLine = true
-			a.Hash = string(data[len("#HASH:"):nl])
+	// the hash line is the first complete line that starts with "#HASH:", wherever the writer put it
+	// (gopki's own reader looks for the marker anywhere in the file)
+	for off := 0; off < len(data); {
+		nl := bytes.IndexByte(data[off:], '\n')
+		if nl < 0 {
+			break
 		}
+		if line := data[off : off+nl]; bytes.HasPrefix(line, []byte("#HASH:")) {
+			a.HasHashLine = true
+			a.Hash = strings.TrimRight(string(line[len("#HASH:"):]), "\r")
+			break
+		}
+		off += nl + 1
 	}
 	rest := data
 	for {
